@@ -1,5 +1,6 @@
 import SJ.Props.C12
 import SJ.Props.StreamTyped
+import SJ.Props.StreamTypedDepth
 #print axioms SJ.Props.C12.c12_fused
 #print axioms SJ.Props.C12.c12_error_fails
 #print axioms SJ.Props.C12.c12_progress
@@ -22,3 +23,5 @@ import SJ.Props.StreamTyped
 #print axioms SJ.Props.StreamTyped.c12_typed_expected_at
 #print axioms SJ.Props.StreamTyped.c12_typed_expected_end
 #print axioms SJ.Props.StreamTyped.c12_typed_values_agree
+#print axioms SJ.Props.StreamTypedDepth.c12_typed_items_full_budget
+#print axioms SJ.Props.StreamTypedDepth.c14_typed_stream_depth_restored
